@@ -55,7 +55,7 @@ Lemma dups_latest wb : forall ws k v,
   option_map proj (latest_at (ws ++ wb) k v) = option_map proj (latest_at ws k v).
 Proof.
   induction wb as [|r wb IH]; intros ws k v Hsf Hc Hd; [now rewrite app_nil_r|].
-  destruct Hc as [(_ & H1 & _) Hc], Hd as [Hd1 Hd]. replace (ws ++ r :: wb) with ((ws ++ [r]) ++ wb) by (now rewrite <- app_assoc).
+  destruct Hc as [(_ & H1) Hc], Hd as [Hd1 Hd]. replace (ws ++ r :: wb) with ((ws ++ [r]) ++ wb) by (now rewrite <- app_assoc).
   rewrite IH; [now apply latest_dup | now apply seq_functional_snoc | exact Hc | exact Hd].
 Qed.
 
@@ -224,17 +224,20 @@ Definition w_key (k : byte) : bytes := [xff; x43; x46; x00; k].
 Definition w_rec (k : byte) (ver : N) (v : bytes) (meta seq : N) : rec :=
   {| r_key := w_key k; r_ver := ver; r_val := v; r_meta := meta; r_exp := 0; r_seq := seq |}.
 
-(** Call-atomic: two transactions write a (200 bytes each; the second lands in value-log file 1),
-    the memtable is sealed, GC rewrites file 0: version 1 is re-inserted into the new active
-    memtable and answers every later read of a. *)
-Definition w_old_ops : list vop :=
-  [ VWrite [w_rec x61 1 (repeat x31 200) 0 1]; VWrite [w_rec x61 2 (repeat x32 200) 0 2]; VRotate ].
+(** Call-atomic: a transaction writes a with an expiry that has passed at [now] = 5, another
+    write seals value-log file 0; GC drops the expired record, moves nothing and removes the file,
+    while the LSM entry still points into it: GetVersionedEntry / Get fail in the value log. *)
+Definition w_exp_rec : rec :=
+  {| r_key := w_key x61; r_ver := 1; r_val := repeat x31 200; r_meta := 0; r_exp := 1; r_seq := 1 |}.
+Definition w_old_ops : list vop := [ VWrite [w_exp_rec]; VWrite [w_rec x62 2 (repeat x32 200) 0 2] ].
 Definition w_old_db : db := vrun w_cfg (init_db w_cfg 1) w_old_ops.
 
-Lemma gc_old_version_witness :
+Lemma gc_expired_witness :
   ops_okb w_cfg (init_db w_cfg 1) [] w_old_ops = true /\
-  gobs (db_get w_old_db (w_key x61) max_ver) = OVal (repeat x32 200) 0 /\
-  gobs (db_get (fst (rewrite w_cfg 0 w_old_db 0 0 3)) (w_key x61) max_ver) = OVal (repeat x31 200) 0.
+  gobs (db_get w_old_db (w_key x61) max_ver) = OVal (repeat x31 200) 0 /\
+  gobs (db_get_live 5 w_old_db (w_key x61) max_ver) = ONone /\
+  gobs (db_get (fst (rewrite w_cfg 5 w_old_db 0 0 3)) (w_key x61) max_ver) = OErr /\
+  gobs (db_get_live 5 (fst (rewrite w_cfg 5 w_old_db 0 0 3)) (w_key x61) max_ver) = OErr.
 Proof. vm_compute. repeat split. Qed.
 
 (** Schedules: plain Set a (200 bytes), Set b (file 0 is sealed), then GC of file 0 against
@@ -332,16 +335,281 @@ Example unstable_ex :
   gc_decide 0 (db_write w_cfg w_race_db w_set) 0 0 4 <> gc_decide 0 w_race_db 0 0 4.
 Proof. vm_compute. discriminate. Qed.
 
+(** * Every value-log record is a write of the history *)
+Definition bfrom (ws : list rec) (b : bucket) : Prop :=
+  forall f vr, In f (b_files b) -> In vr (vf_recs f) -> In (vr_rec vr) ws.
+
+Lemma bfrom_mono ws ws' b : incl ws ws' -> bfrom ws b -> bfrom ws' b.
+Proof. intros Hi H f vr Hf Hv. apply Hi. eauto. Qed.
+
+Lemma place_in start rs v : In v (place start rs) -> In (vr_rec v) rs.
+Proof.
+  revert start. induction rs as [|r rs IH]; intros start H; cbn in H; [contradiction|].
+  destruct H as [<-|H]; [now left | right; eauto].
+Qed.
+
+Lemma bfrom_add ws b fid vs :
+  bfrom ws b -> (forall v, In v vs -> In (vr_rec v) ws) -> bfrom ws (add_recs b fid vs).
+Proof.
+  intros Hb Hvs f vr Hf Hv. apply in_add_recs in Hf as (f0 & H0 & ->). unfold add_to_file in Hv.
+  destruct (vf_fid f0 =? fid); [|eauto]. cbn [vf_recs] in Hv. apply in_app_or in Hv as [Hv|Hv]; eauto.
+Qed.
+
+Lemma bfrom_files ws b b' : (forall f, In f (b_files b') -> In f (b_files b) \/ vf_recs f = []) -> bfrom ws b -> bfrom ws b'.
+Proof. intros H Hb f vr Hf Hv. destruct (H f Hf) as [H0|H0]; [eauto | rewrite H0 in Hv; contradiction]. Qed.
+
+Lemma bfrom_reserve ws c b sz : bfrom ws b -> bfrom ws (fst (fst (reserve c b sz))).
+Proof.
+  intro Hb. apply (bfrom_files ws b); [|exact Hb]. unfold reserve.
+  set (b0 := if b_off b <? vl_header then _ else b).
+  assert (H0 : b_files b0 = b_files b) by (unfold b0; destruct (b_off b <? vl_header); reflexivity).
+  destruct (c_max c <? b_off b0 + sz); cbn [fst b_files rotate_b]; rewrite H0; intros f Hf; [|now left].
+  apply in_app_or in Hf as [Hf|[<-|[]]]; [now left | now right].
+Qed.
+
+Lemma bfrom_append_each ws c bk rs : forall b, bfrom ws b -> incl rs ws -> bfrom ws (fst (append_each c bk b rs)).
+Proof.
+  induction rs as [|r rs IH]; intros b Hb Hi; cbn [append_each]; [exact Hb|].
+  pose proof (bfrom_reserve ws c b (rec_len r) Hb) as Hr.
+  destruct (reserve c b (rec_len r)) as [[b1 fid] start]. cbn [fst] in Hr.
+  set (b2 := add_recs b1 fid [{| vr_off := start; vr_len := rec_len r; vr_rec := r |}]).
+  assert (H2 : bfrom ws b2).
+  { apply bfrom_add; [exact Hr|]. intros v [<-|[]]. cbn. apply Hi. now left. }
+  specialize (IH b2 H2 (fun x Hx => Hi x (or_intror Hx))).
+  destruct (append_each c bk b2 rs) as [b3 ps]. exact IH.
+Qed.
+
+Lemma bfrom_append ws c bk b rs : bfrom ws b -> incl rs ws -> bfrom ws (fst (append_entries c bk b rs)).
+Proof.
+  intros Hb Hi. unfold append_entries. destruct rs as [|r0 rs0]; [exact Hb|]. set (rs := r0 :: rs0) in *.
+  destruct ((0 <? c_max c) && (c_max c <? total_len rs)); [now apply bfrom_append_each|].
+  pose proof (bfrom_reserve ws c b (total_len rs) Hb) as Hr.
+  destruct (reserve c b (total_len rs)) as [[b1 fid] start]. cbn [fst] in *.
+  apply bfrom_add; [exact Hr|]. intros v Hv. apply Hi. now apply (place_in start).
+Qed.
+
+Lemma vfrom_write ws c batch : forall vl bk, Forall (bfrom ws) vl -> incl batch ws ->
+  Forall (bfrom ws) (fst (write_buckets c bk vl batch)).
+Proof.
+  induction vl as [|b vl IH]; intros bk H Hi; cbn [write_buckets]; [constructor|].
+  inversion H as [|? ? Hb Hvl]; subst.
+  pose proof (bfrom_append ws c bk b (group c bk batch) Hb) as Ha.
+  destruct (append_entries c bk b (group c bk batch)) as [b' ps]. specialize (IH (bk + 1) Hvl Hi).
+  destruct (write_buckets c (bk + 1) vl batch) as [vl' pss]. cbn [fst] in *. constructor; [|exact IH].
+  apply Ha. intros x Hx. apply Hi. unfold group in Hx. now apply filter_In in Hx as [Hx _].
+Qed.
+
+Definition vfrom (ws : list rec) (vl : list bucket) : Prop := Forall (bfrom ws) vl.
+
+Lemma db_write_from c d ws batch : vfrom ws (d_vl d) -> vfrom (ws ++ batch) (d_vl (db_write c d batch)).
+Proof.
+  intro H. unfold db_write.
+  pose proof (vfrom_write (ws ++ batch) c batch (d_vl d) 0) as Hw.
+  destruct (write_buckets c 0 (d_vl d) batch) as [vl' pss]. cbn [fst d_vl] in *. apply Hw.
+  - eapply Forall_impl; [|exact H]. intros b. apply bfrom_mono. now apply incl_appl.
+  - now apply incl_appr.
+Qed.
+
+Lemma vrun_from c ops : forall d hist, vfrom hist (d_vl d) -> vfrom (hist ++ vwrites ops) (d_vl (vrun c d ops)).
+Proof.
+  induction ops as [|o ops IH]; intros d hist H; cbn [vrun fold_left].
+  - unfold vwrites. cbn. now rewrite app_nil_r.
+  - change (fold_left (vapply c) ops (vapply c d o)) with (vrun c (vapply c d o) ops).
+    unfold vwrites. cbn [map concat]. fold (vwrites ops). destruct o as [b| |]; cbn [vapply app].
+    + rewrite app_assoc. apply IH. now apply db_write_from.
+    + apply IH. exact H.
+    + apply IH. exact H.
+Qed.
+
+Lemma init_from c m : vfrom [] (d_vl (init_db c m)).
+Proof.
+  unfold init_db, vfrom. cbn [d_vl]. apply Forall_forall. intros b Hb. apply repeat_spec in Hb. subst.
+  intros f vr [<-|[]] [].
+Qed.
+
+(** * Histories in which an internal key determines what was written under it *)
+Definition ikey_fun (ws : list rec) : Prop :=
+  forall a b, In a ws -> In b ws -> r_key a = r_key b -> r_ver a = r_ver b -> proj a = proj b.
+
+(** the record GC writes back for the value-log record [e], with ghost number [n] *)
+Definition mvrec (e : rec) (n : N) : rec :=
+  {| r_key := r_key e; r_ver := r_ver e; r_val := r_val e; r_meta := N.ldiff (r_meta e) bit_vptr; r_exp := r_exp e; r_seq := n |}.
+
+Lemma ldiff_idem m : N.ldiff (N.ldiff m 2) 2 = N.ldiff m 2.
+Proof. rewrite N.ldiff_ldiff_l. reflexivity. Qed.
+
+Lemma proj_mvrec e n : proj (mvrec e n) = proj e.
+Proof. unfold proj, mvrec. cbn. now rewrite ldiff_idem. Qed.
+
+Lemma ldiff_lt256 m : m < 256 -> N.ldiff m 2 < 256.
+Proof.
+  intro H. assert (E : N.ldiff m 2 = N.ldiff m 2 mod 2 ^ 8).
+  { apply N.bits_inj. intro i. destruct (i <? 8) eqn:Ei.
+    - apply N.ltb_lt in Ei. now rewrite N.mod_pow2_bits_low.
+    - apply N.ltb_ge in Ei. rewrite N.mod_pow2_bits_high by exact Ei. rewrite N.ldiff_spec.
+      rewrite <- (N.mod_small m (2 ^ 8)) by exact H. now rewrite N.mod_pow2_bits_high. }
+  rewrite E. apply N.mod_lt. discriminate.
+Qed.
+
+Lemma rec_ok_mvrec e n : rec_ok e -> rec_ok (mvrec e n).
+Proof.
+  unfold rec_ok, entry_ok, entry_of, mvrec. cbn. intros (H1 & H2 & H3 & H4). repeat split; auto. now apply ldiff_lt256.
+Qed.
+
+Lemma moved_dup hist e n :
+  In e hist -> ikey_fun hist -> (forall y, In y hist -> r_seq y < n) -> dup_of hist (mvrec e n).
+Proof.
+  intros He Hf Hn. unfold dup_of. cbn [mvrec r_key r_ver r_seq].
+  pose proof (latest_at_is_latest hist (r_key e) (r_ver e)) as L.
+  destruct (latest_at hist (r_key e) (r_ver e)) as [w|].
+  - destruct L as (Hw & [Hk Hv] & Hb). exists w. split; [reflexivity|].
+    assert (Hg : geq w e) by (apply Hb; [exact He | split; [reflexivity | lia]]).
+    assert (Ev : r_ver w = r_ver e) by (unfold geq in Hg; lia).
+    split; [exact Ev|]. split; [|exact Hn]. rewrite proj_mvrec. now apply Hf.
+  - exfalso. apply (L e He). split; [reflexivity | lia].
+Qed.
+
+Lemma ikey_fun_snoc hist e n : In e hist -> ikey_fun hist -> ikey_fun (hist ++ [mvrec e n]).
+Proof.
+  intros He Hf a b Ha Hb Hk Hv.
+  assert (Hin : forall x, In x (hist ++ [mvrec e n]) -> exists y, In y hist /\ r_key y = r_key x /\ r_ver y = r_ver x /\ proj y = proj x).
+  { intros x Hx. apply in_app_or in Hx as [Hx|[<-|[]]]; [exists x; auto|]. exists e. rewrite proj_mvrec. auto. }
+  destruct (Hin a Ha) as (a' & Ha' & Ka & Va & Pa), (Hin b Hb) as (b' & Hb' & Kb & Vb & Pb).
+  rewrite <- Pa, <- Pb. apply Hf; congruence.
+Qed.
+
+(** every moved record comes from a record of the iterated file *)
+Lemma collect_src now s bk fid vs wb0 :
+  gc_collect now s bk fid vs = Some wb0 ->
+  Forall (fun r => exists vr, In vr vs /\ r = mvrec (vr_rec vr) (r_seq (vr_rec vr))) wb0.
+Proof.
+  revert wb0. induction vs as [|v vs IH]; intros wb0 H; cbn [gc_collect] in H; [inversion H; constructor|].
+  destruct (gc_process now s bk fid v) eqn:Ep; [| |discriminate].
+  - eapply Forall_impl; [|apply IH; exact H]. intros r (vr & Hv & Hr). exists vr. split; [now right | exact Hr].
+  - destruct (gc_collect now s bk fid vs) as [wb1|]; [|discriminate]. inversion H; subst wb0. constructor.
+    + exists v. split; [now left|]. unfold gc_process in Ep.
+      repeat match type of Ep with (if ?c then _ else _) = _ => destruct c; try discriminate end.
+      inversion Ep. reflexivity.
+    + eapply Forall_impl; [|apply IH; reflexivity]. intros r' (vr & Hv & Hr). exists vr. split; [now right | exact Hr].
+Qed.
+
+Lemma renumber_ok wb0 : forall hist n,
+  Forall (fun r => exists e m, In e hist /\ r = mvrec e m) wb0 ->
+  ikey_fun hist -> (forall w, In w hist -> 0 < r_ver w) -> Forall rec_ok hist -> (forall y, In y hist -> r_seq y < n) ->
+  chain_ok hist (renumber n wb0) /\ dups hist (renumber n wb0) /\ Forall rec_ok (renumber n wb0).
+Proof.
+  induction wb0 as [|r wb0 IH]; intros hist n Hsrc Hf Hpos Hok Hn; cbn [renumber chain_ok dups]; [repeat split; constructor|].
+  inversion Hsrc as [|? ? (e & m & He & ->) Hrest]; subst. cbn [mvrec r_key r_ver r_val r_meta r_exp].
+  change {| r_key := r_key e; r_ver := r_ver e; r_val := r_val e; r_meta := N.ldiff (r_meta e) bit_vptr; r_exp := r_exp e; r_seq := n |}
+    with (mvrec e n).
+  rewrite Forall_forall in Hok.
+  destruct (IH (hist ++ [mvrec e n]) (n + 1)) as (C & D & R).
+  - eapply Forall_impl; [|exact Hrest]. intros r' (e' & m' & He' & ->). exists e', m'. split; [apply in_or_app; now left | reflexivity].
+  - now apply ikey_fun_snoc.
+  - intros w Hw. apply in_app_or in Hw as [Hw|[<-|[]]]; [auto | cbn; auto].
+  - apply Forall_forall. intros w Hw. apply in_app_or in Hw as [Hw|[<-|[]]]; [auto | apply rec_ok_mvrec; auto].
+  - intros y Hy. apply in_app_or in Hy as [Hy|[<-|[]]]; [specialize (Hn y Hy); lia | cbn; lia].
+  - split; [split; [split; [cbn; auto | cbn; exact Hn] | exact C]|]. split; [split; [now apply moved_dup | exact D]|].
+    constructor; [apply rec_ok_mvrec; auto | exact R].
+Qed.
+
+(** * GC, call-atomic, on histories whose internal keys determine their value *)
+Theorem gc_preserves_unique c now d ws bk fid nseq :
+  Inv c d ws -> vfrom ws (d_vl d) -> ikey_fun ws ->
+  (forall w, In w ws -> 0 < r_ver w) -> (forall y, In y ws -> r_seq y < nseq) ->
+  forallb (fun w => negb (is_big c w && dead now w)) ws = true ->
+  vsmall (d_vl (fst (rewrite c now d bk fid nseq))) ->
+  forall t k v, let d' := fst (rewrite c now d bk fid nseq) in
+    gobs (db_get d' k v) = gobs (db_get d k v) /\ gobs (db_get_live t d' k v) = gobs (db_get_live t d k v).
+Proof.
+  intros HI Hfrom Hf Hpos Hn Hlive Hsm t k v. cbn zeta.
+  destruct (gc_decide now d bk fid nseq) as [wb|] eqn:Hdec.
+  2:{ unfold rewrite. rewrite Hdec. split; reflexivity. }
+  destruct wb as [|r0 wb'] eqn:Ewb.
+  - pose proof (gc_remove_preserves c now d ws bk fid nseq HI Hdec Hlive) as H.
+    unfold db_get_live. rewrite !H. split; reflexivity.
+  - rewrite <- Ewb in Hdec.
+    assert (Hside : chain_ok ws wb /\ dups ws wb /\ Forall rec_ok wb).
+    { unfold gc_decide in Hdec.
+      destruct (nth_error (d_vl d) (N.to_nat bk)) as [b|] eqn:En; [|discriminate].
+      destruct (b_active b <=? fid); [discriminate|].
+      destruct (find_file b fid) as [f|] eqn:Ef; [|discriminate].
+      destruct (gc_collect now (d_lsm d) bk fid (vf_recs f)) as [wb0|] eqn:Ec; [|discriminate].
+      cbn [option_map] in Hdec. inversion Hdec as [Hwb].
+      destruct HI as (lws & _ & _ & _ & _ & Hok & _ & _).
+      apply renumber_ok; auto.
+      eapply Forall_impl; [|exact (collect_src _ _ _ _ _ _ Ec)]. intros r (vr & Hv & ->).
+      exists (vr_rec vr), (r_seq (vr_rec vr)). split; [|reflexivity].
+      apply nth_error_In in En. destruct (find_file_some _ _ _ Ef) as [Hin _].
+      unfold vfrom in Hfrom. rewrite Forall_forall in Hfrom. exact (Hfrom b En f vr Hin Hv). }
+    destruct Hside as (Hc & Hd & Hr).
+    assert (Hne : wb <> []) by (subst wb; discriminate).
+    destruct (62 <? N.of_nat (length wb)) eqn:E62.
+    { unfold rewrite. rewrite Hdec, E62. split; reflexivity. }
+    assert (Hsm' : vsmall (d_vl (db_write c d wb))).
+    { unfold rewrite in Hsm. rewrite Hdec, E62 in Hsm. subst wb. exact Hsm. }
+    exact (gc_move_preserves c now d ws bk fid nseq wb HI Hdec Hne Hc Hr Hd Hsm' t k v).
+Qed.
+
+(** the same for a state reached by any admissible history *)
+Definition ikey_funb (ws : list rec) : bool :=
+  forallb (fun a => forallb (fun b =>
+     negb (bytes_eqb (r_key a) (r_key b) && (r_ver a =? r_ver b)) ||
+     (bytes_eqb (r_val a) (r_val b) && (N.ldiff (r_meta a) bit_vptr =? N.ldiff (r_meta b) bit_vptr) && (r_exp a =? r_exp b))) ws) ws.
+
+Lemma ikey_funb_spec ws : ikey_funb ws = true -> ikey_fun ws.
+Proof.
+  unfold ikey_funb, ikey_fun. rewrite forallb_forall. intros H a b Ha Hb Hk Hv.
+  specialize (H a Ha). rewrite forallb_forall in H. specialize (H b Hb).
+  rewrite Hk, Hv, bytes_eqb_refl, N.eqb_refl in H. cbn [andb negb orb] in H.
+  apply andb_true_iff in H as [H H3]. apply andb_true_iff in H as [H1 H2].
+  apply bytes_eqb_eq in H1. apply N.eqb_eq in H2, H3. unfold proj. now rewrite H1, H2, H3.
+Qed.
+
+Theorem gc_preserves_unique_run c m ops now bk fid nseq :
+  c_nb c <= two32 -> ops_okb c (init_db c m) [] ops = true ->
+  let ws := vwrites ops in
+  let d := vrun c (init_db c m) ops in
+  ikey_funb ws = true ->
+  forallb (fun w => (0 <? r_ver w) && (r_seq w <? nseq) && negb (is_big c w && dead now w)) ws = true ->
+  vsmallb (d_vl (fst (rewrite c now d bk fid nseq))) = true ->
+  forall t k v, let d' := fst (rewrite c now d bk fid nseq) in
+    gobs (db_get d' k v) = gobs (db_get d k v) /\ gobs (db_get_live t d' k v) = gobs (db_get_live t d k v).
+Proof.
+  intros Hnb Hok ws d Hf Hall Hsm.
+  assert (HI : Inv c d ([] ++ ws)) by (apply vrun_Inv; [now apply init_Inv | exact Hok]).
+  assert (Hfrom : vfrom ([] ++ ws) (d_vl d)) by (apply vrun_from, init_from).
+  cbn [app] in HI, Hfrom. rewrite forallb_forall in Hall.
+  apply (gc_preserves_unique c now d ws bk fid nseq HI Hfrom (ikey_funb_spec _ Hf)).
+  - intros w Hw. specialize (Hall w Hw). apply andb_true_iff in Hall as [Hall _]. apply andb_true_iff in Hall as [H _]. now apply N.ltb_lt.
+  - intros w Hw. specialize (Hall w Hw). apply andb_true_iff in Hall as [Hall _]. apply andb_true_iff in Hall as [_ H]. now apply N.ltb_lt.
+  - apply forallb_forall. intros w Hw. specialize (Hall w Hw). now apply andb_true_iff in Hall as [_ H].
+  - now apply vsmallb_spec.
+Qed.
+
+(** the hypotheses hold on the input that used to refute the statement: two transactions write a,
+    the memtable is sealed, GC rewrites the file of version 1 and does move it *)
+Definition u_ops : list vop :=
+  [ VWrite [w_rec x61 1 (repeat x31 200) 0 1]; VWrite [w_rec x61 2 (repeat x32 200) 0 2]; VRotate ].
+Example gc_unique_hyp_ex :
+  ops_okb w_cfg (init_db w_cfg 1) [] u_ops = true /\ ikey_funb (vwrites u_ops) = true /\
+  forallb (fun w => (0 <? r_ver w) && (r_seq w <? 3) && negb (is_big w_cfg w && dead 0 w)) (vwrites u_ops) = true /\
+  vsmallb (d_vl (fst (rewrite w_cfg 0 (vrun w_cfg (init_db w_cfg 1) u_ops) 0 0 3))) = true /\
+  gc_decide 0 (vrun w_cfg (init_db w_cfg 1) u_ops) 0 0 3 = Some [w_rec x61 1 (repeat x31 200) 0 3] /\
+  gobs (db_get (fst (rewrite w_cfg 0 (vrun w_cfg (init_db w_cfg 1) u_ops) 0 0 3)) (w_key x61) max_ver) = OVal (repeat x32 200) 0.
+Proof. vm_compute. repeat split. Qed.
+
 (** * The statements exported to Properties/C08.v *)
 Theorem gc_preserves_reads_refuted :
   exists c ops now bk fid nseq k v,
     ops_okb c (init_db c 1) [] ops = true /\
     let d := vrun c (init_db c 1) ops in
-    gobs (db_get (fst (rewrite c now d bk fid nseq)) k v) <> gobs (db_get d k v).
+    let d' := fst (rewrite c now d bk fid nseq) in
+    gobs (db_get d' k v) <> gobs (db_get d k v) /\ gobs (db_get_live now d' k v) <> gobs (db_get_live now d k v).
 Proof.
-  exists w_cfg, w_old_ops, 0, 0, 0, 3, (w_key x61), max_ver.
-  destruct gc_old_version_witness as (H1 & H2 & H3). split; [exact H1|]. cbn zeta.
-  fold w_old_db. rewrite H2, H3. vm_compute. discriminate.
+  exists w_cfg, w_old_ops, 5, 0, 0, 3, (w_key x61), max_ver.
+  destruct gc_expired_witness as (H1 & H2 & H3 & H4 & H5). split; [exact H1|]. cbn zeta.
+  fold w_old_db. rewrite H2, H3, H4, H5. split; discriminate.
 Qed.
 
 Theorem gc_sched_refuted :
